@@ -3,7 +3,7 @@
 # Confirms a seeded defect in a scratch worktree: patch applies and builds, the
 # package's existing tests pass with it, the demo fails with it and passes without.
 export GOFLAGS=-mod=mod GOPROXY=off GOSUMDB=off GOTOOLCHAIN=local
-d="$1"; dest="$2"; pkg="$3"; rx="${4:-Seed}"
+d="$(cd "$1" && pwd)"; dest="$2"; pkg="$3"; rx="${4:-Seed}"
 demo=$(ls "$d"/*_test.go | head -1)
 wt=/tmp/seedrun/verify.$$; mkdir -p /tmp/seedrun
 git -C /repo worktree add -q --detach "$wt" HEAD || exit 3
